@@ -109,6 +109,7 @@ func execPredicate(context *exprContext, expr *grammar.Grammar) error {
 		nextContext := context.copy()
 		nextContext.result = NodeSet{nodeSet[i]}
 		nextContext.contextPosition = i
+		nextContext.contextSize = len(nodeSet)
 		left, err := leftOnlyIndependentResult(&nextContext, expr)
 
 		if err != nil {
@@ -116,7 +117,9 @@ func execPredicate(context *exprContext, expr *grammar.Grammar) error {
 		}
 
 		if n, ok := left.(Number); ok {
-			if (i + 1) == int(n) {
+			// [n] is [position() = n], an IEEE comparison: fractions, NaN
+			// and out-of-range numbers select nothing.
+			if float64(n) == float64(i+1) {
 				nextResult = append(nextResult, nodeSet[i])
 			}
 		} else if b, ok := left.(Bool); ok {
